@@ -43,6 +43,7 @@ func specCompareWithSlash(a, b []byte) int {
 
 //@ func CompareWithSlash
 //@ property C11 C15 C20
+//@ pure
 //@ ensures result == specCompareWithSlash(a, b)
 //@ ensures -1 <= result && result <= 1
 //@ loop 0 invariant specCompareWithSlash(old(a), old(b)) == specCompareWithSlash(a, b)
